@@ -93,9 +93,11 @@ Proof.
     destruct (f_start (sget s f0)) as [st0|] eqn:Es; [|discriminate].
     destruct (st0 <? 0) eqn:E0; [discriminate|]. apply Z.ltb_ge in E0.
     assert (0 <= l0). { apply (Hl i0 f0 st0 l0); [now left|]. unfold frange. now rewrite Es, El. }
-    apply IH in H; [|intros; eapply Hl; eauto; now right]. destruct H as [Hm Hall]. split.
+    assert (Hl' : forall i f st l, In (i, f) sel -> frange s f = Some (st, l) -> 0 <= l).
+    { intros i f st l Hi Hr. apply (Hl i f st l); [now right|exact Hr]. }
+    destruct (IH _ _ Hl' H) as [Hm Hall]. split.
     + rewrite Hm. rewrite fmask_range by lia. now rewrite Z.lor_assoc.
-    + intros i f [Heq|Hin]; [|now apply Hall]. inversion Heq; subst.
+    + intros i f [Heq|Hin]; [|now apply (Hall i f)]. inversion Heq; subst.
       exists st0, l0. unfold frange. rewrite Es, El. auto.
 Qed.
 
@@ -107,7 +109,7 @@ Proof.
   induction sel as [|[i0 f0] sel IH]; intros Hpos; simpl.
   - rewrite Z.testbit_0_l. split; [discriminate|]. intros [i [f [st [l [[] _]]]]].
   - assert (Hpos' : forall i f st l, In (i, f) sel -> frange s f = Some (st, l) -> 0 <= st /\ 0 <= l).
-    { intros; eapply Hpos; eauto. now right. }
+    { intros i f st l Hi Hr. apply (Hpos i f st l); [now right|exact Hr]. }
     destruct (frange s f0) as [[st0 l0]|] eqn:Er.
     + destruct (Hpos i0 f0 st0 l0 (or_introl eq_refl) Er) as [P1 P2].
       rewrite Z.lor_spec, orb_true_iff, (IH Hpos'), range_mask_bit by lia. split.
@@ -160,7 +162,7 @@ Lemma value_readback L st fv v :
     exists p l x, frange (s_store st) f = Some (p, l) /\ zassoc i fv = Some x /\ read_field v p l = x.
 Proof.
   intros SL HF H i f Hin. unfold get_value, select in H. simpl in H.
-  destruct (existsb _ (enabled_fields (s_tree st) fv)); [discriminate|].
+  match type of H with (if ?c then _ else _) = _ => destruct c end; [discriminate|].
   apply value_loop_spec in H. destruct H as [Hv Hall]. rewrite Z.lor_0_l in Hv. subst v.
   destruct (Hall _ _ Hin) as [p [l [x [Hr [Hp Hz]]]]].
   exists p, l, x. split; [exact Hr|split; [exact Hz|]].
@@ -196,7 +198,7 @@ Lemma tag_mask_is_union L st fv tg m :
 Proof.
   intros HP H. unfold get_mask, select in H. simpl in H.
   destruct (filter (has_tag (s_store st) tg) (enabled_fields (s_tree st) fv)) as [|x xs] eqn:Ef; [discriminate|].
-  simpl bind in H. apply mask_loop_spec in H.
+  change (mask_loop (s_store st) (x :: xs) 0 = Ok m) in H. apply mask_loop_spec in H.
   - destruct H as [H _]. now rewrite Z.lor_0_l in H.
   - intros i f p l Hin Hr.
     assert (In (i, f) (enabled_fields (s_tree st) fv)).
@@ -211,12 +213,13 @@ Lemma field_mask_is_range L st fv i m :
   exists f p l, get_field (s_tree st) i fv = Some f /\ frange (s_store st) f = Some (p, l) /\ m = range_mask p l.
 Proof.
   intros HP H. unfold get_mask, select in H.
-  destruct (get_field (s_tree st) i fv) as [f|] eqn:Eg; [|discriminate]. simpl bind in H.
+  destruct (get_field (s_tree st) i fv) as [f|] eqn:Eg; [|discriminate].
+  change (mask_loop (s_store st) [(i, f)] 0 = Ok m) in H.
   pose proof (get_field_enabled _ _ _ _ Eg) as Hin.
   apply mask_loop_spec in H.
   - destruct H as [H Hall]. destruct (Hall i f (or_introl eq_refl)) as [p [l [Hr _]]].
     exists f, p, l. split; [reflexivity|split; [exact Hr|]].
-    rewrite H. simpl. rewrite Hr. now rewrite Z.lor_0_l, Z.lor_0_r.
+    rewrite H. cbn [union_bits fold_right snd]. rewrite Hr. now rewrite Z.lor_0_l, Z.lor_0_r.
   - intros i' f' p l [Heq|[]] Hr. inversion Heq; subst.
     destruct (placed_pos _ _ _ _ _ _ _ _ HP Hin Hr). lia.
 Qed.
@@ -224,6 +227,13 @@ Qed.
 (* ------------------------------------------------------------------ distinct keys *)
 Lemma flat_map_ext_in {A B} (f g : A -> list B) l :
   (forall a, In a l -> f a = g a) -> flat_map f l = flat_map g l.
+Proof.
+  induction l as [|a l IH]; intros H; simpl; [reflexivity|].
+  rewrite H by now left. f_equal. apply IH. intros; apply H; now right.
+Qed.
+
+Lemma forallb_ext_in {A} (f g : A -> bool) l :
+  (forall a, In a l -> f a = g a) -> forallb f l = forallb g l.
 Proof.
   induction l as [|a l IH]; intros H; simpl; [reflexivity|].
   rewrite H by now left. f_equal. apply IH. intros; apply H; now right.
@@ -259,12 +269,10 @@ Proof.
   rewrite Hreq. destruct (req_enabled fv2 req) eqn:E; [|reflexivity].
   rewrite Forall_forall in IH. apply (IH _ Hc); simpl; auto.
   - intros x Hx. apply S1. simpl. apply in_or_app. right. apply in_flat_map. exists (req, cc).
-    split; [exact Hc|]. now rewrite Hreq, E.
+    split; [exact Hc|]. now rewrite Hreq.
   - intros x Hx. apply S2. simpl. apply in_or_app. right. apply in_flat_map. exists (req, cc).
     split; [exact Hc|]. now rewrite E.
 Qed.
-
-Lemma forallb_ext_in_dummy : True. Proof. exact I. Qed.
 
 (* keys_distinct: two complete assignments that differ on a field give key/mask pairs that match no
    common key *)
